@@ -31,7 +31,8 @@ type c01Gen struct {
 }
 
 func (g *c01Gen) bad(p int, trait string) bool {
-	if g.rr.Intn(p) == 0 {
+	// faults are rare enough that most documents carry none or exactly one
+	if g.rr.Intn(p*5) == 0 {
 		g.traits = append(g.traits, trait)
 		return true
 	}
